@@ -26,7 +26,7 @@ import numpy as np
 from .. import common as C
 
 PROP = "C18"
-GEN_REGIONS: List[str] = ["Noise", "FftNoise"]
+GEN_REGIONS: List[str] = ["Noise", "FftNoise", "GlobalState"]
 THEOREMS = {
     "SpecKitV.Lemmas.Bilinear": ["bilinear_section", "bilinear_dc", "bilinear_nyquist"],
     # FFT synthesiser index logic, band mask, corner placement (file present and building at hand-over; names are the ones it contains)
@@ -47,6 +47,9 @@ THEOREMS = {
         "gen_band_limited_zero_outside", "gen_band_limited_unit_inside",
         "gen_alpha_init_eq_model", "gen_alpha_rejects_iff", "gen_alpha_corners", "gen_alpha_corners_ratio", "gen_alpha_corners_step",
         "gen_alpha_section_response", "gen_alpha_effective", "gen_alpha_section_dc_nyquist", "gen_white_init_eq", "gen_white_variance"],
+    # no state outlives a call in the files this property is anchored in (no module/class-level containers, memoisers, mutable defaults) and the
+    # decorators are exactly the audited ones (region GlobalState, re-scanned from the current source each run)
+    "SpecKitV.Props.GlobalStateGen": ["GlobalStateGen.gen_globalState_noise"],
 }
 CONTRACTS = [
     "np.fft.ifft / np.fft.fft are the inverse / forward DFT (unnormalised forward, 1/N inverse) up to rounding c*u*log2(N)*||F||_2",
